@@ -396,7 +396,7 @@ def scenario_scripts(seed, count):
     for k in range(count):
         g = Gen(seed * 104729 + k, max_conn=3, out_batch=2)
         r = g.r
-        kind = k % 9
+        kind = k % 10
         g.connect("n1", "c1"); g.connect("n2", "c2")
         q1 = r.choice([0, 1, 2])
         if kind == 0:          # late wildcard
@@ -417,8 +417,10 @@ def scenario_scripts(seed, count):
                     g.idle(10)
             for _ in range(r.randint(3, 7)):
                 g.publish("n2", r.choice(topics), r.choice([0, 1, 2]))
-        elif kind == 2:        # publish and (un)subscribe in one batch
+        elif kind == 2:        # publish and (un)subscribe in one batch (sometimes with a second client parked on the same filter)
             g.subscribe("n1", "a/+", q1); g.idle(20); g.steps.append({"op": "drain", "n": "n1"})
+            if r.random() < 0.6:
+                g.connect("n3", "c3"); g.subscribe("n3", "a/+", r.choice([0, 1])); g.idle(20)
             g.publish("n1", "a/b", r.choice([0, 1])); g.unsubscribe("n1", "a/+")
             if r.random() < 0.5:
                 g.subscribe("n1", "a/+", r.choice([0, 1]))
@@ -489,9 +491,28 @@ def scenario_scripts(seed, count):
             if r.random() < 0.5:
                 g.publish("n3", "a/b", 0); g.idle(10)
             g.steps.append({"op": "close", "n": "n3"}); g.idle(10); g.steps.append({"op": "will", "n": "n3"}); g.idle(30)
+        elif kind == 9:        # two requests of one connection parked on the same log (plain and shared), then it goes away
+            qa, qb = r.choice([0, 1]), r.choice([0, 1])
+            subs = [("a/b", qa), ("$share/g/a/b", qb)]
+            r.shuffle(subs)
+            for f, q in subs:
+                g.subscribe("n1", f, q)
+            if r.random() < 0.5:
+                g.connect("n3", "c3"); g.subscribe("n3", r.choice(["a/b", "$share/g/a/b", "a/+"]), r.choice([0, 1]))
+            g.idle(40)
+            if r.random() < 0.5:
+                g.push("n1", {"t": "disconnect", "id": 0, "msg": NOMSG, "fs": []}); g.idle(10)
+            g.steps.append({"op": "close", "n": "n1"}); g.idle(20)
+            for _ in range(r.randint(1, 3)):
+                g.publish("n2", "a/b", r.choice([0, 1]))
+            g.idle(30)
+            g.connect("n4", "c1"); g.subscribe("n4", "a/b", r.choice([0, 1])); g.idle(20)
+            g.publish("n2", "a/b", 0)
         else:                  # re-subscription and resume
             g.steps = []
             g.connect("n1", "c1", clean=False); g.connect("n2", "c2")
+            if r.random() < 0.5:           # the subscription starts with a retained replay that stays unacknowledged
+                g.publish("n2", r.choice(["a/b", "a/c"]), 0, retain=True); g.idle(20)
             g.subscribe("n1", "a/+", 1); g.idle(20)
             for _ in range(r.randint(2, 5)):
                 g.publish("n2", "a/b", r.choice([0, 1]))
